@@ -29,7 +29,8 @@ import z3
 
 ROUTED = {"len": "_pyvc_len", "isinstance": "_pyvc_isinstance", "int": "_pyvc_int",
           "min": "_pyvc_min", "max": "_pyvc_max", "bool": "_pyvc_bool", "str": "_pyvc_str",
-          "abs": "_pyvc_abs", "bytes": "_pyvc_bytes", "range": "_pyvc_range"}
+          "abs": "_pyvc_abs", "bytes": "_pyvc_bytes", "range": "_pyvc_range",
+          "memoryview": "_pyvc_memoryview", "bytearray": "_pyvc_bytearray"}
 
 
 class _Assigned(ast.NodeVisitor):
@@ -530,7 +531,28 @@ def p_join(sep, items):
     return out
 
 
-HELPERS = {"_pyvc_join": p_join, "_pyvc_fstr": p_fstr, "_pyvc_percent": p_percent, "_pyvc_len": p_len, "_pyvc_isinstance": p_isinstance, "_pyvc_int": p_int,
+def p_memoryview(obj):
+    """memoryview(x): a contract stub standing for a buffer supplies its own view (x.__pyvc_memoryview__()); real buffers get a real memoryview"""
+    f = getattr(obj, "__pyvc_memoryview__", None)
+    if f is not None:
+        return f()
+    if isinstance(obj, SStr):
+        return obj
+    return memoryview(obj)
+
+
+def p_bytearray(*a):
+    """bytearray(n) with the unit's buffer factory installed (cx().bytearray_factory): a fresh scratch buffer under contract; otherwise the real thing"""
+    c = cx()
+    f = getattr(c, "bytearray_factory", None) if c is not None else None
+    if f is not None:
+        return f(*a)
+    if a and isinstance(a[0], Proxy):
+        raise core.Unsupported("bytearray() of %s" % type(a[0]).__name__)
+    return bytearray(*a)
+
+
+HELPERS = {"_pyvc_memoryview": p_memoryview, "_pyvc_bytearray": p_bytearray, "_pyvc_join": p_join, "_pyvc_fstr": p_fstr, "_pyvc_percent": p_percent, "_pyvc_len": p_len, "_pyvc_isinstance": p_isinstance, "_pyvc_int": p_int,
            "_pyvc_min": p_min, "_pyvc_max": p_max, "_pyvc_bool": p_bool, "_pyvc_str": p_str,
            "_pyvc_abs": p_abs, "_pyvc_bytes": p_bytes, "_pyvc_range": p_range,
            "_pyvc_newdict": lambda name: {}, "_pyvc_newlist": lambda name: []}
